@@ -9,7 +9,7 @@ from vt.mon import contracts
 PROP = 'C09'
 TITLE = 'PDA acceptance (sound always, complete below the closure limit)'
 SHARDS = {'quick': 16, 'thorough': 32}
-TIMEOUT = {'quick': 900, 'thorough': 3600}
+TIMEOUT = {'quick': 420, 'thorough': 3600}
 REQUIRED = ['pda_accepts_word', 'pda_epsilon_closure']
 EXHAUSTIVE_NOTE = 'no complete sub-space: PDAs are sampled (seeded random + named families + shipped examples), each with ALL words up to the bound and several closure limits'
 RULE = ('cases are (PDA, closure limit): seeded random PDAs (<=4 states, <=2 input, <=3 stack symbols, <=8 moves of kinds push/pop/replace/no-op), named families '
